@@ -60,7 +60,6 @@ def ScriptWrites (W : Expr → Prop) (script : List TbOp) : Prop :=
     | _ => True
 
 structure SimRel (SA SB : Sim) (R : EState → EState → Prop) (W : Expr → Prop) : Prop where
-  nproc : SB.nproc = SA.nproc
   ctx : SB.ctx = SA.ctx
   doms : SB.doms = SA.doms
   scripts : SB.scripts = SA.scripts
@@ -69,12 +68,11 @@ structure SimRel (SA SB : Sim) (R : EState → EState → Prop) (W : Expr → Pr
   next : ∀ a b, R a b → b.next = a.next
   now : ∀ a b, R a b → b.now = a.now
   obs : ∀ a b, R a b → b.obs = a.obs
-  timers : ∀ a b, R a b → b.timers = a.timers
-  loc : ∀ a b t, R a b → getLoc b (SA.nproc + t) = getLoc a (SA.nproc + t)
-  setLoc : ∀ a b t l, R a b → R (setLoc a (SA.nproc + t) l) (setLoc b (SA.nproc + t) l)
+  loc : ∀ a b t, R a b → getLoc b (SB.nproc + t) = getLoc a (SA.nproc + t)
+  setLoc : ∀ a b t l, R a b → R (setLoc a (SA.nproc + t) l) (setLoc b (SB.nproc + t) l)
   addObs : ∀ a b x, R a b → R { a with obs := x :: a.obs } { b with obs := x :: b.obs }
   setTimer : ∀ a b t x, R a b →
-    R { a with timers := a.timers.set (SA.nproc + t) x } { b with timers := b.timers.set (SA.nproc + t) x }
+    R { a with timers := a.timers.set (SA.nproc + t) x } { b with timers := b.timers.set (SB.nproc + t) x }
   write : ∀ a b tgt v, R a b → W tgt →
     R { a with next := assignTbG true SA.ctx a.curr tgt 0 v (widthOf SA.ctx tgt) a.next }
       { b with next := assignTbG true SA.ctx a.curr tgt 0 v (widthOf SA.ctx tgt) b.next }
@@ -93,18 +91,18 @@ theorem tbExec_rel2 (t : Nat) (script : List TbOp) (hsc : ScriptWrites W script)
   | zero => intro a b hr; exact hr
   | succ n ih =>
     intro a b hr
-    have hl : getLoc b (SB.nproc + t) = getLoc a (SA.nproc + t) := by rw [h.nproc]; exact h.loc a b t hr
+    have hl : getLoc b (SB.nproc + t) = getLoc a (SA.nproc + t) := h.loc a b t hr
     have hcurr := h.curr a b hr
     have hnow := h.now a b hr
     cases hop : script[(getLoc a (SA.nproc + t)).pc]? with
     | none =>
-      rw [tbExec_end SA t script n a hop, tbExec_end SB t script n b (by rw [hl]; exact hop), hl, h.nproc]
+      rw [tbExec_end SA t script n a hop, tbExec_end SB t script n b (by rw [hl]; exact hop), hl]
       exact h.setLoc a b t _ hr
     | some op =>
       have hmem : op ∈ script := List.mem_of_getElem? hop
       by_cases hrep : (getLoc a (SA.nproc + t)).report = true
       · rw [tbExec_report SA t script n a op hop hrep,
-          tbExec_report SB t script n b op (by rw [hl]; exact hop) (by rw [hl]; exact hrep), hl, h.nproc]
+          tbExec_report SB t script n b op (by rw [hl]; exact hop) (by rw [hl]; exact hrep), hl]
         have hx : (t, b.now, op.shown (getLoc a (SA.nproc + t)).result) = (t, a.now, op.shown (getLoc a (SA.nproc + t)).result) := by
           rw [hnow]
         rw [hx]
@@ -122,7 +120,7 @@ theorem tbExec_rel2 (t : Nat) (script : List TbOp) (hsc : ScriptWrites W script)
           rw [hx]
           have h1 := h.step _ _ (h.write a b tgt v hr hW)
           have hl2 := h.loc _ _ t h1
-          rw [h.nproc, hl2]
+          rw [hl2]
           apply ih
           exact h.setLoc _ _ t _ h1
         | setFrom tgt e =>
@@ -134,12 +132,12 @@ theorem tbExec_rel2 (t : Nat) (script : List TbOp) (hsc : ScriptWrites W script)
           rw [hx]
           have h1 := h.step _ _ (h.write a b tgt (evalTb SA.ctx a.curr e) hr hW)
           have hl2 := h.loc _ _ t h1
-          rw [h.nproc, hl2]
+          rw [hl2]
           apply ih
           exact h.setLoc _ _ t _ h1
         | get e =>
           rw [tbExec_get SA t script n a e hop hrep,
-            tbExec_get SB t script n b e (by rw [hl]; exact hop) (by rw [hl]; exact hrep), hl, h.ctx, h.nproc]
+            tbExec_get SB t script n b e (by rw [hl]; exact hop) (by rw [hl]; exact hrep), hl, h.ctx]
           have hx : (t, b.now, [evalTb SA.ctx b.curr e]) = (t, a.now, [evalTb SA.ctx a.curr e]) := by rw [hnow, hcurr]
           rw [hx]
           apply ih
@@ -149,7 +147,7 @@ theorem tbExec_rel2 (t : Nat) (script : List TbOp) (hsc : ScriptWrites W script)
           rw [tbExec_tick SA t script n a d es hop hrep,
             tbExec_tick SB t script n b d es (by rw [hl]; exact hop) (by rw [hl]; exact hrep), h.doms]
           unfold awaitState
-          rw [hl, h.nproc]
+          rw [hl]
           split
           · next m _ =>
             have hx : some (b.now + m) = some (a.now + m) := by rw [hnow]
@@ -160,7 +158,7 @@ theorem tbExec_rel2 (t : Nat) (script : List TbOp) (hsc : ScriptWrites W script)
           rw [tbExec_wait SA t script n a tr hop hrep,
             tbExec_wait SB t script n b tr (by rw [hl]; exact hop) (by rw [hl]; exact hrep), h.doms]
           unfold awaitState
-          rw [hl, h.nproc]
+          rw [hl]
           split
           · next m _ =>
             have hx : some (b.now + m) = some (a.now + m) := by rw [hnow]
@@ -177,9 +175,9 @@ theorem getD_scriptsOk (t : Nat) : ScriptWrites W (SA.scripts.getD t []) := by
 theorem tbTurn_rel2 (t : Nat) (acc acc' : EState × Bool) (hr : R acc.1 acc'.1) (hf : acc'.2 = acc.2) :
     R (tbTurn SA acc t).1 (tbTurn SB acc' t).1 ∧ (tbTurn SB acc' t).2 = (tbTurn SA acc t).2 := by
   unfold tbTurn
-  have hl : getLoc acc'.1 (SB.nproc + t) = getLoc acc.1 (SA.nproc + t) := by rw [h.nproc]; exact h.loc _ _ t hr
+  have hl : getLoc acc'.1 (SB.nproc + t) = getLoc acc.1 (SA.nproc + t) := h.loc _ _ t hr
   simp only [h.scripts]
-  rw [hl, h.nproc]
+  rw [hl]
   by_cases hrun : (getLoc acc.1 (SA.nproc + t)).runnable = true
   · simp only [hrun, if_true]
     refine ⟨?_, trivial⟩
@@ -219,7 +217,7 @@ theorem anyCritical_rel2 (a b : EState) (hr : R a b) : anyCritical SB b = anyCri
   rw [h.scripts]
   congr 1
   funext t
-  rw [h.nproc, h.loc a b t hr]
+  rw [h.loc a b t hr]
 
 theorem advance_rel2 (a b : EState) (hr : R a b) :
     R (advance SA a).1 (advance SB b).1 ∧ (advance SB b).2 = (advance SA a).2 := by
